@@ -88,9 +88,10 @@ def comp (f : Fld) (c : Nat) : NDA Rat := f.data.map fun v => v.getD c 0
 def lookup (m : List (String × String)) (k : String) : Option String :=
   (m.find? fun p => p.1 == k).map (·.2)
 
-/-- reversed mapping: spatial dim ↦ component label (`Field._r_dim_mapping`) -/
+/-- reversed mapping: spatial dim ↦ component label (`Field._r_dim_mapping`): the dict comprehension
+`{val: key for key, val in vdim_mapping.items()}` keeps the LAST key mapped to `dim` -/
 def rDim (f : Fld) (dim : String) : Option String :=
-  (f.vmap.find? fun p => p.2 == dim).map (·.1)
+  (f.vmap.reverse.find? fun p => p.2 == dim).map (·.1)
 
 def vdimIndex (f : Fld) (label : String) : Option Nat :=
   match f.vdims with
